@@ -185,13 +185,16 @@ def realloc_case(rng, cid, ps, mode, reopen=False):
     else:
         # (a poke on a persistent tree is ftruncate + mremap + msync: keep those cases small)
         pages = rng.choice([6, 9, 14]) if mode == "persistent" else rng.choice([8, 20, 70, 300])
-        ops += [["tfill", 1, rng.choice([1, 1, 3]), v, pages], ["stats"], ["datalen"]]
+        slack = rng.choice([None, None, 1, 1, 2, 3])
+        # slack n: the buffer has room for exactly n more pages, so the (n+1)-th page allocated inside one Set moves it
+        # (n = 1: the second page taken by a root / internal split)
+        ops += [["tfill", 1, rng.choice([1, 1, 3]), v, pages] + ([] if slack is None else [slack]), ["stats"], ["datalen"]]
         for k in [1, 2, 3, 100, 1000, KMAX]:
             ops.append(["get", k])
     if reopen:
         ops += [["stats"], ["reopen"], ["stats"], ["get", 1], ["get", big + 1]]
     for j in range(rng.randrange(3, 12) if mode == "persistent" else rng.randrange(5, 200)):
-        ops += [["tight"], ["set", rng.choice([big - 1 - j, rng.getrandbits(20) + 1]), v + 1]]
+        ops += [["tight"] + rng.choice([[], [], [1], [2]]), ["set", rng.choice([big - 1 - j, rng.getrandbits(20) + 1]), v + 1]]
     ops += [["stats"], ["iter"]]
     return Case(cid, "tree", [ps, mode], ops, tags=["realloc"])
 
